@@ -124,12 +124,15 @@ def execute(sc):
         except Exception as e:
             V.append(viol("heritability-fixes-error-variance", C + ".set_" + sc["h2"]["which"], "raises:%s" % type(e).__name__, "%s: %s" % (type(e).__name__, e)))
             return _out(sc, V, log, faults, probes, False)
-        ve = numpy.asarray(pt.var_err, dtype=float)
+        ve = numpy.broadcast_to(numpy.asarray(pt.var_err, dtype=float), (ntr,))
         faults["heritability_set"] = 1
+        # genetic variance per trait, computed here from the predicted values (population variance), not taken from the model
+        gv = numpy.asarray((gm.gebv(pg) if sc["h2"]["which"] == "h2" else gm.gegv(pg)).unscale(), dtype=float)
+        vg = gv.var(0)
         for t in range(ntr):
-            if vg[t] > 0:
+            if vg[t] > 1e-12 * (1.0 + float(numpy.abs(gv[:, t]).max()) ** 2):
                 ratio = vg[t] / (vg[t] + ve[t])
-                if abs(ratio - h) > 4 * EPS * max(1.0, abs(h)) + 4 * EPS:
+                if abs(ratio - h) > 1e-9:
                     V.append(viol("heritability-fixes-error-variance", C + ".set_" + sc["h2"]["which"], "ratio",
                                   "target %r: genetic variance %r, error variance %r give %r" % (h, float(vg[t]), float(ve[t]), float(ratio))))
                     return _out(sc, V, log, faults, probes, False)
